@@ -317,6 +317,12 @@ func genAssign(emit func(Case)) {
 				Want: []string{"s=" + a + b, "h=" + a + b}})
 		}
 	}
+	// += as the first write to a STRING that was never assigned: the target holds the operand and is set afterwards
+	for _, b := range []string{"x", "1", "abc"} {
+		emit(Case{Kind: "assign", Class: "assign STRING += on a not-set target",
+			Probe: fmt.Sprintf("sub probe {\n  declare local var.s STRING;\n  set var.s += \"%s\";\n  log \"s=\" var.s;\n  if (var.s) { log \"s:set\"; } else { log \"s:notset\"; }\n  if (var.s == \"%s\") { log \"s:eq\"; } else { log \"s:ne\"; }\n  log \"c=<\" var.s \">\";\n  set req.http.Copy = var.s;\n  if (req.http.Copy) { log \"copy:set\"; } else { log \"copy:notset\"; }\n  set req.http.Fresh += \"%s\";\n  log \"h=\" req.http.Fresh;\n  if (req.http.Fresh) { log \"h:set\"; } else { log \"h:notset\"; }\n}\n", b, b, b),
+			Want: []string{"s=" + b, "s:set", "s:eq", "c=<" + b + ">", "copy:set", "h=" + b, "h:set"}})
+	}
 }
 
 func operandClass(a, b int64) string {
